@@ -62,7 +62,9 @@ def tie(tag, module_path, funcs, tmpl_name, theorems, imports=""):
             untranslated[fn] = str(exc)      # its theorems (and those that use it) will fail to compile
         except (OSError, SyntaxError) as exc:
             return [(t, False, "cannot read the source: %s" % exc) for t in theorems]
-    tmpl = open(os.path.join(os.path.dirname(__file__), tmpl_name)).read()
+    # tmpl_name: one template, or several that are concatenated (later ones use the theorems of earlier ones)
+    tmpl_names = [tmpl_name] if isinstance(tmpl_name, str) else list(tmpl_name)
+    tmpl = "".join(open(os.path.join(os.path.dirname(__file__), t)).read() for t in tmpl_names)
     # split the template into sections
     pos = [m.start() for m in SECTION.finditer(tmpl)] + [len(tmpl)]
     sections = [tmpl[:pos[0]]] + [tmpl[pos[i]:pos[i + 1]] for i in range(len(pos) - 1)]
@@ -169,6 +171,21 @@ def trend_obligations():
     `obligations = pylite_tie.trend_obligations` in harness/c03.py"""
     return tie("TrendSrc", os.path.join("verde", "trend.py"), TREND_FUNCS, "pylite_trend.v.tmpl",
                TREND_THEOREMS, TREND_IMPORTS)
+
+
+TREND_METHODS_FUNCS = ["Trend.predict", "Trend.jacobian"]
+TREND_METHODS_THEOREMS = ["src_Trend_predict_eq", "src_Trend_predict_unfitted", "src_Trend_jacobian_eq",
+                          "src_Trend_jacobian_shapes"]
+TREND_METHODS_IMPORTS = "From Verde Require Import Model.Trend Proofs.TrendProofs Proofs.PyLiteBridge."
+
+
+def c03_obligations():
+    """verde/trend.py: polynomial_power_combinations (as trend_obligations) and, in the same generated file,
+    Trend.predict / Trend.jacobian against trend_predict / trend_jacobian of Model/Trend.v, with the callee
+    polynomial_power_combinations instantiated by its serialised source (harness/pylite_trend_methods.v.tmpl)"""
+    return tie("TrendSrc", os.path.join("verde", "trend.py"), TREND_FUNCS + TREND_METHODS_FUNCS,
+               ["pylite_trend.v.tmpl", "pylite_trend_methods.v.tmpl"], TREND_THEOREMS + TREND_METHODS_THEOREMS,
+               TREND_METHODS_IMPORTS)
 
 
 CV_FUNCS = [(os.path.join("verde", "base", "base_classes.py"), "BaseBlockCrossValidator.__init__"),
